@@ -201,9 +201,9 @@ func (fi *File) Type() NodeType {
 }
 
 func (fi *File) Mode() (os.FileMode, error) {
-	fi.nodeLock.RLock()
-	defer fi.nodeLock.RUnlock()
-
+	// GetNode takes the node lock. Do not hold it here as well: a recursive
+	// read lock deadlocks as soon as a writer (a descriptor being flushed or
+	// closed) queues up between the two acquisitions.
 	nd, err := fi.GetNode()
 	if err != nil {
 		return 0, err
@@ -242,9 +242,7 @@ func (fi *File) SetMode(mode os.FileMode) error {
 
 // ModTime returns the files' last modification time.
 func (fi *File) ModTime() (time.Time, error) {
-	fi.nodeLock.RLock()
-	defer fi.nodeLock.RUnlock()
-
+	// See Mode: GetNode takes the node lock itself.
 	nd, err := fi.GetNode()
 	if err != nil {
 		return time.Time{}, err
